@@ -46,6 +46,8 @@ def _case(draw):
         "psi": draw(gen.rotvec(min_exp=-1, near_max=False)),
         "b": [draw(gen.f(-3, 3)) for _ in range(3)],
         "la": [draw(gen.f(-2, 2)) for _ in range(7)],
+        # the rod is given a new reference configuration after construction (set_reference_strains)
+        "re_reference": draw(st.integers(0, 3)) == 0,
     }
 
 
@@ -81,6 +83,13 @@ def check(spec):
     D = sysbuild.dense
     rs = spec["rod"]
     system, rod, Q = build(rs)
+    if spec.get("re_reference"):
+        n_ = rodbuild.nnodes(rs)
+        Qn = rodbuild.perturb(rs, Q, spec["dr"][::-1], spec["dp"][::-1], [1.0])
+        P_ = Qn[3 * n_:].reshape(4, n_)
+        Qn[3 * n_:] = (P_ / np.linalg.norm(P_, axis=0)[None, :]).reshape(-1)
+        rod.set_reference_strains(Qn)
+        Q = Qn
     site = rodbuild.formulation_name(rs)
     feats = {"formulation": site, "degree": rs["degree"], "nel": rs["nel"], "material": rs["material"]}
     kmax = max(max(rs["Ei"]), max(rs["Fi"]))
